@@ -543,3 +543,151 @@ func TestC30Client(t *testing.T) {
 			fmt.Sprintf("announcedAgain=%v", again), fmt.Sprintf("clockDelay=%v", delay), fmt.Sprintf("stored=%d", n), "run="+runErr)
 	})
 }
+
+// slowStorage records like recStorage and takes a while to store (a disk, a
+// database): the caller - the handler of a session notification - is parked
+// inside the client for that long.
+type slowStorage struct {
+	recStorage
+	d time.Duration
+}
+
+func (s *slowStorage) StoreSession(ctx context.Context, d []byte) error {
+	if s.d > 0 {
+		time.Sleep(s.d)
+	}
+	return s.recStorage.StoreSession(ctx, d)
+}
+
+// C30 (e): two clients in one process, each with a restored session for its
+// own DC (2 and 4), its own key, its own storage and its own server. Both
+// servers announce sessions (salts from disjoint sets) 1..3 times before the
+// config answer and 0..6 times after it, a drawn interval apart, while the
+// storages take a drawn time per save - so notifications of one client are
+// being handled while the other's arrive. Every session a client stores must
+// pair its own DC with its own key and one of the salts its server announced.
+func TestC30TwoClients(t *testing.T) {
+	st := pbt.NewStats("TestC30TwoClients")
+	defer st.Flush()
+	type side struct {
+		dc       int
+		saltBase int64
+		cfg      []byte
+		opts     []tg.DCOption
+	}
+	sides := []*side{{dc: 2, saltBase: 0x2000}, {dc: 4, saltBase: 0x4000}}
+	for _, sd := range sides {
+		c := tg.Config{ThisDC: sd.dc, DCOptions: []tg.DCOption{{ID: sd.dc, IPAddress: fmt.Sprintf("10.0.0.%d", sd.dc), Port: 443}}, Date: 1, Expires: 1 << 30}
+		var b bin.Buffer
+		if err := c.Encode(&b); err != nil {
+			t.Fatal(err)
+		}
+		sd.cfg, sd.opts = b.Buf, c.DCOptions
+	}
+	rapid.Check(t, func(t *rapid.T) {
+		rnd, seed := pbt.DrawStream(t, "rnd")
+		type plan struct {
+			before, after int
+			gap, store    time.Duration
+		}
+		plans := make([]plan, 2)
+		for i := range plans {
+			plans[i] = plan{
+				before: rapid.IntRange(0, 2).Draw(t, "announcedBeforeConfig"),
+				after:  rapid.IntRange(0, 6).Draw(t, "announcedAfterConfig"),
+				gap:    time.Duration(rapid.SampledFrom([]int{0, 50, 200, 1000}).Draw(t, "gapMicros")) * time.Microsecond,
+				store:  time.Duration(rapid.SampledFrom([]int{0, 100, 1000, 3000}).Draw(t, "storeMicros")) * time.Microsecond,
+			}
+		}
+		type running struct {
+			ak      crypto.AuthKey
+			store   *slowStorage
+			initial int
+			srv     *server
+			err     error
+		}
+		rs := make([]*running, 2)
+		var wg sync.WaitGroup
+		for i, sd := range sides {
+			var key [256]byte
+			copy(key[:], rnd.Bytes(256))
+			r := &running{store: &slowStorage{d: plans[i].store}}
+			r.srv = &server{key: key, t0: time.Now(), plan: map[uint64]string{}, handled: map[uint64]bool{}, seenTag: map[uint64][]seen{},
+				acked: map[uint64]int{}, ackedOn: map[uint64]map[int]bool{}, answered: map[uint64]int{}, cfg: sd.cfg,
+				saltBase: sd.saltBase, extraBefore: plans[i].before, extraAfter: plans[i].after, afterGap: plans[i].gap}
+			r.ak = keyFrom(0)
+			r.ak.Value = key
+			r.ak.ID = r.ak.Value.ID()
+			if err := (&session.Loader{Storage: r.store}).Save(context.Background(), &session.Data{DC: sd.dc, Addr: fmt.Sprintf("10.0.0.%d:443", sd.dc), AuthKey: r.ak.Value[:], AuthKeyID: r.ak.ID[:], Salt: 0x1234}); err != nil {
+				t.Fatal(err)
+			}
+			r.initial = r.store.saves
+			rs[i] = r
+		}
+		for i, sd := range sides {
+			i, sd, r := i, sd, rs[i]
+			crnd := pbt.NewStream(seed*2 + uint64(i))
+			client := telegram.NewClient(1, "hash", telegram.Options{
+				DC:             sd.dc,
+				DCList:         dcs.List{Options: sd.opts},
+				Resolver:       dcs.Plain(dcs.PlainOptions{Dial: r.srv.dial}),
+				SessionStorage: r.store,
+				NoUpdates:      true,
+				Random:         crnd,
+			})
+			want := 1 + plans[i].before + plans[i].after
+			wg.Add(1)
+			go func() {
+				defer wg.Done()
+				ctx, cancel := context.WithTimeout(context.Background(), 60*time.Second)
+				defer cancel()
+				r.err = client.Run(ctx, func(ctx context.Context) error {
+					deadline := time.Now().Add(20 * time.Second)
+					for time.Now().Before(deadline) {
+						r.store.mu.Lock()
+						n := r.store.saves - r.initial
+						r.store.mu.Unlock()
+						if n >= want {
+							break
+						}
+						time.Sleep(200 * time.Microsecond)
+					}
+					time.Sleep(2 * time.Millisecond)
+					return nil
+				})
+			}()
+		}
+		wg.Wait()
+		stored := 0
+		for i, sd := range sides {
+			r := rs[i]
+			r.srv.mu.Lock()
+			for _, p := range r.srv.peers {
+				_ = p.Conn.Close()
+			}
+			r.srv.mu.Unlock()
+			r.store.mu.Lock()
+			for k, raw := range r.store.history[r.initial:] {
+				var v struct {
+					Data session.Data
+				}
+				if err := json.Unmarshal(raw, &v); err != nil {
+					r.store.mu.Unlock()
+					t.Fatalf("client for DC %d: stored session %d does not parse: %v", sd.dc, k, err)
+				}
+				okSalt := v.Data.Salt >= sd.saltBase && v.Data.Salt < sd.saltBase+0x200
+				if v.Data.DC != sd.dc || string(v.Data.AuthKey) != string(r.ak.Value[:]) || string(v.Data.AuthKeyID) != string(r.ak.ID[:]) || !okSalt {
+					other := rs[1-i]
+					r.store.mu.Unlock()
+					t.Fatalf("C30 violated: the client connected to DC %d (key id %x, salts %#x..) stored session #%d pairing DC %d with key id %x and salt %#x; the other client in the process talks to DC %d with key id %x and salts %#x.. (plans %+v)",
+						sd.dc, r.ak.ID, sd.saltBase, k+1, v.Data.DC, v.Data.AuthKeyID, v.Data.Salt, sides[1-i].dc, other.ak.ID, sides[1-i].saltBase, plans)
+				}
+				stored++
+			}
+			r.store.mu.Unlock()
+		}
+		overlap := (plans[0].store > 0 || plans[1].store > 0) && plans[0].before+plans[0].after > 0 && plans[1].before+plans[1].after > 0
+		st.Case(fmt.Sprintf("%d/%+v", seed, plans), overlap, fmt.Sprintf("plans=%+v stored=%d", plans, stored),
+			fmt.Sprintf("before=%d/%d", plans[0].before, plans[1].before), fmt.Sprintf("slowStore=%v", plans[0].store > 0 || plans[1].store > 0))
+	})
+}
